@@ -9,7 +9,7 @@ sys.path.insert(0, HERE)
 
 MODULES = {
     "C01": "p_cc", "C02": "p_cc", "C03": "p_cc",
-    "C05": "p_socks",
+    "C05": "p_socks", "C06": "p_socksreq",
 }
 
 
